@@ -61,6 +61,7 @@ RULES = {
     "R11": "`crate::a::b::X` / `super::X` / `Self::` path prefixes stripped or renamed for single-file assembly",
     "R14": "from_be_bytes/to_be_bytes -> stub with arithmetic spec",
     "R27": "lock sequentialisation: `if let Ok([mut] G) = self.F.write()/read() {` -> `if lock_ok() { let G = &[mut] self.F;` and `&self` -> `&mut self` (std RwLock: write() is exclusive, read() is shared; a poisoned lock is the nondeterministic `lock_ok() == false`; the field type `Arc<RwLock<T>>` is declared as `T` in the overlay)",
+    "R30": "`for c in E.chunks_exact(N) {` / `for c in E.chunks(N) {` -> `let c__n = E.len() / N [+ 1 if a remainder is left]; let mut c__i = 0; while c__i < c__n { let c = &E[c__i*N .. c__i*N+N (cut at E.len() for chunks)]; c__i += 1;` (definition of slice::chunks_exact / slice::chunks)",
     "R29": "`for x in f(..) {` over an owned Vec of Copy elements -> `let v = f(..); let mut i = 0; while i < v.len() { let x = v[i]; i += 1; ..` (element taken and index advanced first, so `continue` is harmless)",
     "G1": "match-arm guard `P if C => B` -> `P => { if C { B } else { E } }` with E (what the later arms do for P) given in the overlay; works around a Verus crash on guards reading mutable locals",
     "A1": "closure annotated with parameter types / ensures; body wrapped in braces verbatim",
@@ -1197,6 +1198,24 @@ def build_item(cur, log):
             ed.replace(toks[lk].start, toks[last].end, f"let {vv} = {e_}; let mut {kv}: usize = 0; while {kv} < {vv}.len()")
             ed.insert(toks[lo_].end, f" let {v} = {vv}[{kv}]; {kv} += 1;")
             log.append(("R29", where, " ".join(hdr.split())))
+    if "R30" in rules:
+        # `for c in E.chunks_exact(N) {` / `for c in E.chunks(N) {` -> index loop over the chunk number (definition of slice::chunks_exact /
+        # slice::chunks: chunk k is E[k*N .. k*N+N], the last chunk of `chunks` is cut at E.len()); the index is advanced first
+        for n_, (lk, lo_, lc_) in enumerate(loops):
+            if toks[lk].text != "for": continue
+            hdr = text[toks[lk].start:toks[lo_].start]
+            m = re.match(r"for\s+(\w+)\s+in\s+([\w\.]+)\.chunks(_exact)?\(\s*(\w+)\s*\)\s*$", hdr, re.S)
+            if not m: continue
+            v, e_, exact, n = m.group(1), m.group(2), m.group(3), m.group(4)
+            cn, ci = f"c__n{n_}", f"c__i{n_}"
+            last = prev_code(toks, lo_)
+            if exact:
+                ed.replace(toks[lk].start, toks[last].end, f"let {cn}: usize = {e_}.len() / {n}; let mut {ci}: usize = 0; while {ci} < {cn}")
+                ed.insert(toks[lo_].end, f" let {v} = &{e_}[{ci} * {n}..{ci} * {n} + {n}]; {ci} += 1;")
+            else:
+                ed.replace(toks[lk].start, toks[last].end, f"let {cn}: usize = {e_}.len() / {n} + (if {e_}.len() % {n} != 0 {{ 1 }} else {{ 0 }}); let mut {ci}: usize = 0; while {ci} < {cn}")
+                ed.insert(toks[lo_].end, f" let {v} = &{e_}[{ci} * {n}..(if {ci} * {n} + {n} <= {e_}.len() {{ {ci} * {n} + {n} }} else {{ {e_}.len() }})]; {ci} += 1;")
+            log.append(("R30", where, " ".join(hdr.split())))
     for x in secs:
         if x.kind in ("loop", "loop_begin", "loop_end", "after", "before"):
             if x.arg.startswith("~"):
